@@ -483,7 +483,6 @@ fn write_evidence(world: &WorldDef, prop: &Property, thorough: bool, agg: &Agg, 
     let dir = format!("{}/evidence", verif_dir());
     std::fs::create_dir_all(&dir).map_err(|e| e.to_string())?;
     let hours = (wall / 3600.0).max(1e-9);
-    let zero_probes: Vec<&str> = vec![];
     let mut assumptions: Vec<String> = prop.assumptions.iter().map(|s| s.to_string()).collect();
     assumptions.push("seeded search samples schedules/faults; a clean batch is evidence, not proof".into());
     let doc = json!({
@@ -508,7 +507,6 @@ fn write_evidence(world: &WorldDef, prop: &Property, thorough: bool, agg: &Agg, 
             "seeds_per_hour": agg.evaluations as f64 / hours,
             "faults_fired": agg.faults,
             "reach_probes": agg.probes,
-            "reach_probes_at_zero": zero_probes,
             "aborted_runs": agg.aborted,
             "aborted_samples": agg.abort_samples,
             "other_property_violations_seen": agg.other_violations,
